@@ -45,6 +45,10 @@ const (
 	vFocusMethods
 	vFocusAuth
 	vFocusServices
+	vFocusAssertion
+	vFocusKeyAgreement
+	vFocusCapInvocation
+	vFocusCapDelegation
 )
 
 func vDocT(site string, focus int) *DIDDocument {
@@ -94,6 +98,23 @@ func vDocT(site string, focus int) *DIDDocument {
 		}
 	} else {
 		doc.Authentications = []VerificationRelationship{NewVerificationRelationship(m.Id)}
+	}
+	if focus >= vFocusAssertion {
+		// one adversarial entry in one of the other verification relationships
+		var rels []VerificationRelationship
+		if vNondetBool(site + ".hasOtherRel") {
+			rels = append(rels, vRelT(site+".rel", doc.Id))
+		}
+		switch focus {
+		case vFocusAssertion:
+			doc.AssertionMethods = rels
+		case vFocusKeyAgreement:
+			doc.KeyAgreements = rels
+		case vFocusCapInvocation:
+			doc.CapabilityInvocations = rels
+		case vFocusCapDelegation:
+			doc.CapabilityDelegations = rels
+		}
 	}
 	if focus == vFocusServices {
 		n := vShapeT(site+".nSvc", 2)
@@ -175,8 +196,10 @@ func vSpecDoc(doc *DIDDocument, did string) bool {
 	for _, m := range doc.VerificationMethods {
 		ok = vAll(ok, vSpecMethod(m, did))
 	}
-	for _, r := range doc.Authentications {
-		ok = vAll(ok, vSpecRel(r, doc))
+	for _, rs := range [][]VerificationRelationship{doc.Authentications, doc.AssertionMethods, doc.KeyAgreements, doc.CapabilityInvocations, doc.CapabilityDelegations} {
+		for _, r := range rs {
+			ok = vAll(ok, vSpecRel(r, doc))
+		}
 	}
 	for _, sv := range doc.Services {
 		ok = vAll(ok, sv.Id != "", sv.Type != "", sv.ServiceEndpoint != "")
@@ -242,6 +265,14 @@ func vHarnessCreateValidateContexts() { vCreateValidate(vFocusContexts) }
 func vHarnessCreateValidateMethods()  { vCreateValidate(vFocusMethods) }
 func vHarnessCreateValidateAuth()     { vCreateValidate(vFocusAuth) }
 func vHarnessCreateValidateServices() { vCreateValidate(vFocusServices) }
+func vHarnessCreateValidateRelA()     { vCreateValidate(vFocusAssertion) }
+func vHarnessCreateValidateRelK()     { vCreateValidate(vFocusKeyAgreement) }
+func vHarnessCreateValidateRelI()     { vCreateValidate(vFocusCapInvocation) }
+func vHarnessCreateValidateRelD()     { vCreateValidate(vFocusCapDelegation) }
+func vHarnessUpdateValidateRelA()     { vUpdateValidate(vFocusAssertion) }
+func vHarnessUpdateValidateRelK()     { vUpdateValidate(vFocusKeyAgreement) }
+func vHarnessUpdateValidateRelI()     { vUpdateValidate(vFocusCapInvocation) }
+func vHarnessUpdateValidateRelD()     { vUpdateValidate(vFocusCapDelegation) }
 func vHarnessUpdateValidateIDs()      { vUpdateValidate(vFocusIDs) }
 func vHarnessUpdateValidateContexts() { vUpdateValidate(vFocusContexts) }
 func vHarnessUpdateValidateMethods()  { vUpdateValidate(vFocusMethods) }
